@@ -1,12 +1,12 @@
 #!/bin/bash
-# usage: tools/try_mutant.sh <patch.diff> <Cxx> [tier]  -- applies the patch to /repo, runs the check, reverts.
+# usage: tools/try_mutant.sh <patch.diff> <Cxx> [tier]  -- applies the patch to a scratch worktree of /repo (never to /repo itself), runs the check on it, removes the worktree.
 set -u
 patch="$1"; prop="$2"; tier="${3:-quick}"
-cd /repo || exit 9
-git diff --quiet || { echo "/repo is dirty"; exit 9; }
-git apply "$patch" || { echo "patch does not apply"; exit 9; }
+wt=/tmp/mutwt_$$
+git -C /repo worktree add -q --detach "$wt" HEAD || exit 9
+( cd "$wt" && git apply "$patch" ) || { echo "patch does not apply"; git -C /repo worktree remove --force "$wt"; exit 9; }
 cd /verif
-out=$(./run "$prop" "$tier" 2>&1); code=$?
-git -C /repo checkout -- .
+out=$(VERIF_REPO="$wt" ./run "$prop" "$tier" 2>&1); code=$?
+git -C /repo worktree remove --force "$wt"
 echo "$out" | grep -E "^(VIOLATION|HARNESS-ERROR|INCONCLUSIVE|  what|$prop )" | cut -c1-300 | head -12
 echo "exit=$code"
